@@ -75,13 +75,38 @@ class C05(InterpProp):
                 ops.append(['exec', 0, t])
         return sc, ops
 
+    @staticmethod
+    def flood(rnd):
+        """many events pending at once (hundreds, due later), then events due at once or earlier: where a new event
+        goes does not depend on how long the queue is"""
+        sc, _ = C05.two_timers(rnd)
+        n = rnd.choice([130, 200, 300])
+        ops = [['exec', 0, 0]]
+        for i in range(n):
+            ops.append(['queue', 0, {'ev': 'late', 'data': [['v', i % 5], ['delay', rnd.choice([10, 10, 12])]]}])
+        ops.append(['queue', 0, {'ev': 'go', 'data': []}])
+        ops.append(['queue', 0, {'ev': 'late', 'data': [['v', 9], ['delay', 3]]}])
+        for t in (0, 0, 3, 5, 10, 10, 10, 12, 12):
+            ops.append(['exec', 0, t])
+        return sc, ops
+
     def gen_case(self, rnd, tier):
+        c0 = rnd.random()
+        if c0 < 0.01:
+            sc, ops1 = self.flood(rnd)
+            enc = ChartEnc(sc)
+            payload = {'kind': 'interp', 'charts': [enc.json], 'via_yaml': False,
+                       'ops': [['create', 0, self.ignore_contract, [], 0]] + ops1}
+            return Case(payload, {'charts': [sc]}, model_ok=enc.supported)
         if rnd.random() < 0.06:
             sc, ops1 = self.two_timers(rnd)
             enc = ChartEnc(sc)
             payload = {'kind': 'interp', 'charts': [enc.json], 'ops': [['create', 0, self.ignore_contract, [], 0]] + ops1}
             return Case(payload, {'charts': [sc]}, model_ok=enc.supported)
         case = super().gen_case(rnd, tier)
+        if rnd.random() < 0.06:
+            # clock values that binary floats hold with many decimals: an event is due at time + delay, as computed
+            return gen.shift_times(case, rnd.choice([1 / 7, 0.30000000000000004, 1e-10]))
         if 'history' not in case.payload and rnd.random() < 0.25:
             # a second interpreter bound to the first: what the first sends reaches it once
             sink = sink_chart()
